@@ -142,7 +142,168 @@ def run(chk, facts_dir, tier):
             chk.ok("R19.2", "events_size = sum(EVENT_HEADER_SIZE + 4 lengths) + (COMMIT_SIZE unless flagged); checked against segment_size with SEGMENT_HEADER_SIZE", hb.where())
         else:
             chk.fail("R19.2", HAE, "estimate-summands", "the size estimate lost a summand (constants used: %s, variable lengths: %d, flag test: %s)" % (sorted(named & need), lens, flag), hb)
+    _decision_boundary(chk, prog, hb, hev)
+    _writer_space_check(chk, prog)
     return {}
+
+
+def _writer_space_check(chk, prog):
+    """R19.4"""
+    from .c13 import addsub_leaves
+    from ..util import field_stores
+    APP = "seglog::write::Writer::<H>::append"
+    chk.rule("R19.4", "WRITER'S SPACE CHECK IS EXACT: seglog's Writer::append refuses a record (SegmentFull) exactly when the write offset it would advance to exceeds the "
+                      "segment size: the two sides of the comparison, minus `size`, are term for term the value stored to `write_offset` after the write. A stricter test "
+                      "(`>=`, an extra constant) refuses records the database has reserved room for - on every retry, since the database does not roll over for them")
+    ab = prog.body(APP)
+    chk.analysed(ab.path)
+    ev = Ev(prog, ab)
+
+    def norm(t):
+        t = strip(t)
+        while t[0] == "cast":
+            t = strip(t[1])
+        return t
+
+    def leaves(term, sign0, acc):
+        for sg, lf in addsub_leaves(term):
+            lf = norm(lf)
+            # a widening cast may sit between the sums: flatten through it
+            if lf[0] == "bin" or (lf[0] == "field" and lf[2] == "0" and lf[1][0] == "bin"):
+                leaves(lf, sign0 * sg, acc)
+                continue
+            acc.append((sign0 * sg, lf))
+        return acc
+    adv = None
+    for bi, si, st in field_stores(ab, "write_offset", "Writer"):
+        val = ev._rvalue(st["rv"], (bi, si), 0) if st["rv"].get("k") != "call" else None
+        if val is not None:
+            adv = (leaves(val, 1, []), st["line"])
+    if adv is None:
+        raise Inconclusive("Writer::append: no store to write_offset")
+    full = [(i, s_) for i, j, s_ in ab.assigns() if s_["rv"].get("k") == "agg" and str(s_["rv"].get("ak", "")).endswith("SegmentFull")]
+    if not full:
+        raise Inconclusive("Writer::append: WriteError::SegmentFull is not constructed")
+    n = 0
+    for c in comparisons(prog, ab, ev):
+        sa = any(isinstance(x, tuple) and x and x[0] == "field" and x[2] == "size" for x in walk(c["a"]))
+        sb_ = any(isinstance(x, tuple) and x and x[0] == "field" and x[2] == "size" for x in walk(c["b"]))
+        if sa == sb_:
+            continue
+        e, sz, op = (c["b"], c["a"], SWAP[c["op"]]) if sa else (c["a"], c["b"], c["op"])
+        sw = switch_on(ab, c["sw_block"], c["lhs"]["l"])
+        if not sw:
+            continue
+        if op in ("Gt", "Ge"):
+            edge, eff = (c["sw_block"], sw[0]), op
+        elif op in ("Le", "Lt"):
+            edge, eff = (c["sw_block"], sw[1]), {"Le": "Gt", "Lt": "Ge"}[op]
+        else:
+            continue
+        if not any(edge_dominates(ab, edge[0], edge[1], fb) for fb, _ in full):
+            continue
+        n += 1
+        cmp_leaves = leaves(e, 1, []) + leaves(sz, -1, [])
+        size_leaves = [x for x in cmp_leaves if x[0] == -1 and x[1][0] == "field" and x[1][2] == "size"]
+        rest = [x for x in cmp_leaves if x not in size_leaves[:1]]
+
+        def key(ls):
+            const = sum(sg * lf[2] for sg, lf in ls if lf[0] == "const" and isinstance(lf[2], int))
+            other = sorted(("+" if sg > 0 else "-") + show(lf) for sg, lf in ls if not (lf[0] == "const" and isinstance(lf[2], int)))
+            return const, other
+        kc, ka = key(rest), key(adv[0])
+        if eff == "Ge":
+            kc = (kc[0] + 1, kc[1])
+        if len(size_leaves) == 1 and kc == ka:
+            chk.ok("R19.4", "SegmentFull exactly when the advanced write offset would exceed `size`", ab.where(c["line"]))
+        else:
+            chk.fail("R19.4", APP, "space-check-inexact", "SegmentFull is returned when %s %s size, but the write advances the offset to %s: the test and the write disagree on "
+                     "what fits (constant %+d vs %+d)" % (" ".join(kc[1])[:120], "> " if True else "", " ".join(ka[1])[:120], kc[0], ka[0]), ab, c["line"])
+    chk.floor("R19.4", n, 1)
+
+
+def _decision_boundary(chk, prog, hb, hev):
+    """R19.3"""
+    from .c13 import addsub_leaves
+    chk.rule("R19.3", "DECISION BOUNDARY: both comparisons of the size estimate with segment_size are exact. Rollover: `write_offset + estimate (+ c) > segment_size` with "
+                      "c >= 0 and nothing else on either side, and the rollover call sits on that edge - the boundary the segment writer's own SegmentFull test uses; a slack on "
+                      "the segment's side leaves appends that the writer will refuse in the old segment, on every retry. Reject: `estimate + c > segment_size` with c exactly "
+                      "the offset at which BucketSegmentWriter::create starts an empty segment - a larger c refuses transactions that fit an empty segment, a smaller one "
+                      "admits transactions no rollover can make room for")
+    # the start offset of an empty segment: third argument of seglog's Writer::create in BucketSegmentWriter::create
+    cb = prog.body("sierradb::bucket::segment::writer::BucketSegmentWriter::create")
+    chk.analysed(cb.path)
+    cev = Ev(prog, cb)
+    start = None
+    for bi, t in cb.calls():
+        if (cb.callee_decl(t) or "").endswith("Writer::<H>::create") and len(t["args"]) >= 3:
+            v = strip(cev.operand(t["args"][2], (bi, "T")))
+            while v[0] == "cast":
+                v = strip(v[1])
+            if v[0] == "const" and isinstance(v[2], int):
+                start = v[2]
+    if start is None:
+        raise Inconclusive("BucketSegmentWriter::create: the start offset given to seglog's Writer::create is not a constant")
+    n = 0
+    for c in comparisons(prog, hb, hev):
+        sa = any(isinstance(x, tuple) and x and x[0] == "field" and x[2] == "segment_size" for x in walk(c["a"]))
+        sb_ = any(isinstance(x, tuple) and x and x[0] == "field" and x[2] == "segment_size" for x in walk(c["b"]))
+        if sa == sb_:
+            continue
+        e, sz, op = (c["b"], c["a"], SWAP[c["op"]]) if sa else (c["a"], c["b"], c["op"])
+        sw = switch_on(hb, c["sw_block"], c["lhs"]["l"])
+        if not sw:
+            continue
+        n += 1
+        if op in ("Gt", "Ge"):
+            edge, eff = (c["sw_block"], sw[0]), op
+        elif op in ("Le", "Lt"):
+            edge, eff = (c["sw_block"], sw[1]), {"Le": "Gt", "Lt": "Ge"}[op]
+        else:
+            chk.fail("R19.3", HAE, "boundary-op", "the size estimate is compared with segment_size by %s" % op, hb, c["line"])
+            continue
+        const = 0
+        stray = []
+        has_off = False
+        seen_size = False
+        for side, sign0 in ((e, 1), (sz, -1)):
+            for sg, lf in addsub_leaves(side):
+                lf = strip(lf)
+                while lf[0] == "cast":
+                    lf = strip(lf[1])
+                tot = sign0 * sg          # sign of the leaf in `estimate side - segment side`
+                if lf[0] == "const" and isinstance(lf[2], int):
+                    const += tot * lf[2]
+                elif tot == -1 and lf[0] == "field" and lf[2] == "segment_size" and not seen_size:
+                    seen_size = True
+                elif tot == 1:
+                    if any(isinstance(x, tuple) and x and x[0] == "call" and x[1].endswith("::write_offset") for x in walk(lf)):
+                        has_off = True
+                else:
+                    stray.append("-" + show(lf)[:40])
+        if eff == "Ge":
+            const += 1          # x >= y  <=>  x + 1 > y
+        if stray:
+            chk.fail("R19.3", HAE, "boundary-term:" + ("rollover" if has_off else "reject"), "the comparison of the size estimate with segment_size carries an extra term (%s): its boundary "
+                     "is no longer that of the segment writer's space check" % ", ".join(stray), hb, c["line"])
+            continue
+        if has_off:
+            ro = [bi for bi, t in hb.calls() if (hb.callee(t) or hb.callee_decl(t) or "") == WS + "rollover"]
+            on_edge = any(edge_dominates(hb, edge[0], edge[1], bi) for bi in ro)
+            if const >= 0 and on_edge:
+                chk.ok("R19.3", "rollover when write_offset + estimate%s > segment_size" % (" + %d" % const if const else ""), hb.where(c["line"]))
+            elif const < 0:
+                chk.fail("R19.3", HAE, "rollover-slack", "rollover is decided with a slack of %d bytes in favour of the old segment: an append whose estimate exceeds the remaining space by "
+                         "less than that is written to the old segment, refused by the segment writer (SegmentFull), rolled back, and refused again on every retry" % -const, hb, c["line"])
+            else:
+                chk.fail("R19.3", HAE, "rollover-not-on-edge", "no call to WriterSet::rollover is dominated by the edge on which the append does not fit the live segment", hb, c["line"])
+        else:
+            if const == start:
+                chk.ok("R19.3", "reject when estimate + %d > segment_size (%d = start offset of an empty segment)" % (const, start), hb.where(c["line"]))
+            else:
+                chk.fail("R19.3", HAE, "reject-boundary", "transactions are refused when estimate + %d > segment_size, but an empty segment starts at offset %d: %s" % (
+                    const, start, "transactions that fit an empty segment are refused" if const > start else "transactions that no rollover can make room for are admitted and fail with SegmentFull forever"), hb, c["line"])
+    chk.floor("R19.3", n, 2)
 
 
 def _is_data_len(t):
